@@ -506,10 +506,13 @@ def meaning(cs, sv: SpecView, c: Cand):
         return b3(ok)
     if k == "ScheduleNTasksInTimeIntervals":
         ivs = cs["intervals"]
-        for i in range(len(ivs)):
-            for j in range(i + 1, len(ivs)):
-                if olap(ivs[i][0], ivs[i][1], ivs[j][0], ivs[j][1]) > 0 or ivs[i] == ivs[j]:
-                    return U
+        if cs.get("mode", "exact") != "min":
+            # overlapping intervals: whether a task in the overlap counts once or twice for an
+            # upper count is not documented ("min" is unaffected: a task is inside or it is not)
+            for i in range(len(ivs)):
+                for j in range(i + 1, len(ivs)):
+                    if olap(ivs[i][0], ivs[i][1], ivs[j][0], ivs[j][1]) > 0 or ivs[i] == ivs[j]:
+                        return U
         n = 0
         for i in cs["tasks"]:
             t = Tk[i]
